@@ -1,0 +1,33 @@
+//go:build verif
+
+// Contracts for contract-based deductive verification (checked by /verif/govc).
+// This file is comment-only and compiled only with the build tag "verif".
+
+package topologyaware
+
+// ---- C13: a rejected configuration update leaves the previous configuration in force --------------------------------
+// The pool-tree rebuild and the re-instatement of saved grants are assumed to be arbitrary (modifies *), except that
+// they neither assign the package-level options nor any policy object's cfg (checked by reading: `opt`, `defaultPrio`
+// and `.cfg` are assigned only in Setup and Reconfigure).
+//@ assume-contract (*policy).initialize
+//@   modifies *
+//@   ensures opt == old(opt) && defaultPrio == old(defaultPrio)
+//@   ensures forall q *policy :: q.cfg == old(q.cfg)
+//@ assume-contract (*policy).registerImplicitAffinities
+//@   modifies *
+//@   ensures opt == old(opt) && defaultPrio == old(defaultPrio)
+//@   ensures forall q *policy :: q.cfg == old(q.cfg)
+//@ assume-contract (*policy).restoreAllocations
+//@   modifies *
+//@   ensures opt == old(opt) && defaultPrio == old(defaultPrio)
+//@   ensures forall q *policy :: q.cfg == old(q.cfg)
+//@ assume-contract (*grant).RefetchNodes
+//@   modifies *
+//@   ensures opt == old(opt) && defaultPrio == old(defaultPrio)
+//@   ensures forall q *policy :: q.cfg == old(q.cfg)
+//@ func (*policy).Reconfigure tags=C13
+//@   requires p != nil && p.cfg != nil && opt == p.cfg
+//@   ensures[C13] result != nil ==> opt == old(opt) && p.cfg == old(p.cfg)
+//@   ensures[C13] result == nil ==> opt == p.cfg && opt != nil
+//@ loop 0 in (*policy).Reconfigure at "for _, grant := range allocations.grants"
+//@   invariant[C13] opt == cfg && cfg != nil && p.cfg == cfg && savedPolicy.cfg == old(p.cfg)
